@@ -36,13 +36,13 @@ Proof.
     + apply negb_true_iff in He. destruct (lock_file s); cbn; [assumption|].
       intros [E|E]; [subst; rewrite N.eqb_refl in He; discriminate|auto].
     + destruct (mem i (saw_free s)); cbn; [|assumption]. intro E. apply remove_n_In in E. auto.
-    + destruct (mem i (holders s)); cbn; assumption.
+    + assumption.
     + assumption.
   - destruct e as [i|i|i|i]; cbn in *.
     + destruct (lock_file s); cbn; assumption.
     + destruct (mem i (saw_free s)) eqn:M; cbn; [|assumption].
       intros [E|E]; [subst; apply mem_In in M; auto|auto].
-    + destruct (mem i (holders s)); cbn; [|assumption]. intro E. apply remove_n_In in E. auto.
+    + intro E. apply remove_n_In in E. auto.
     + assumption.
 Qed.
 
@@ -107,3 +107,11 @@ Proof. intros. cbn. auto. Qed.
    write give two holders (the TOCTOU window of Pipestance.Lock) *)
 Lemma lock_toctou_lemma : exists h, length (holders (lock_run lock_init h)) = 2.
 Proof. exists [LCheck 1%N; LCheck 2%N; LWrite 1%N; LWrite 2%N]. reflexivity. Qed.
+
+(* why a refused or read-only instance must never unlock: a removal by an
+   instance that does not hold the pipestance lets a second writer in while
+   the first still holds it *)
+Lemma foreign_unlock_lemma : exists h,
+  forallb (fun e => match e with LUnlock i => negb (N.eqb i 1 || N.eqb i 2) | _ => true end) h = true /\
+  holders (lock_run lock_init h) = [2%N; 1%N].
+Proof. exists [LCheck 1%N; LWrite 1%N; LAttachRO 3%N; LUnlock 3%N; LCheck 2%N; LWrite 2%N]. split; reflexivity. Qed.
